@@ -392,6 +392,11 @@ func (st *Runtime) executeYieldBlock(block *BlockNode, blockParam, yieldParam *B
 		st.content = func(st *Runtime, expression Expression) {
 			outscope := st.scope
 			outcontent := st.content
+			// also when the content fails: the lists around the yield pop the scopes they pushed on top of outscope
+			defer func() {
+				st.scope = outscope
+				st.content = outcontent
+			}()
 
 			st.scope = myscope
 			st.content = mycontent
@@ -404,9 +409,6 @@ func (st *Runtime) executeYieldBlock(block *BlockNode, blockParam, yieldParam *B
 			} else {
 				st.executeList(content)
 			}
-
-			st.scope = outscope
-			st.content = outcontent
 		}
 	}
 
